@@ -14,8 +14,8 @@ from . import env
 from .calls import apply_table, do_call
 
 
-def answer(sf, K, call):
-    warnings.simplefilter("ignore")
+def answer(sf, K, call, warn_mode="ignore"):
+    warnings.simplefilter(warn_mode)
     try:
         apply_table(sf, K)
     except Exception as e:   # acceptance must not depend on history either
@@ -25,8 +25,8 @@ def answer(sf, K, call):
 
 def _history(sf, raw):
     from . import histsim
-    ops, passive = pickle.loads(raw)
-    return histsim.execute(sf, ops, passive)
+    ops, passive, warn_mode = pickle.loads(raw)
+    return histsim.execute(sf, ops, passive, warn_mode)
 
 
 def _presets(sf, raw):
@@ -65,8 +65,8 @@ def main():
         return
     if "--history" in sys.argv:
         from . import histsim
-        ops, passive = pickle.loads(sys.stdin.buffer.read())
-        sys.stdout.buffer.write(pickle.dumps(histsim.execute(sf, ops, passive), protocol=4))
+        ops, passive, warn_mode = pickle.loads(sys.stdin.buffer.read())
+        sys.stdout.buffer.write(pickle.dumps(histsim.execute(sf, ops, passive, warn_mode), protocol=4))
         return
     if "--sim" in sys.argv:
         return sim_loop(sf)
@@ -79,7 +79,7 @@ def main():
         except EOFError:
             return
         try:
-            res = fork_call(answer, sf, req[1], req[2], timeout=60.0)
+            res = fork_call(answer, sf, req[1], req[2], req[3] if len(req) > 3 else "ignore", timeout=60.0)
             _send(out, ("ok", res))
         except Exception as e:  # reported to the client as a harness error
             _send(out, ("fail", repr(e)))
